@@ -17,7 +17,8 @@ Pool == <<MkDef(1, 10, <<1>>, <<1>>, <<>>, <<(<<1, 11>>), (<<2, 12>>)>>),
           MkDef(5, 10, <<>>, <<>>, <<>>, <<>>),
           MkDef(6, 20, <<4, 3>>, <<1>>, <<>>, <<(<<3, 63>>)>>),
           MkDef(7, 10, <<>>, <<2>>, <<>>, <<(<<4, 74>>)>>),
-          MkDef(8, 10, <<>>, <<4>>, <<>>, <<(<<1, 81>>)>>)>>      \* 8: no transformations; its post-processing item prints variable k1 and the state of the pipeline it runs in
+          MkDef(8, 10, <<>>, <<4>>, <<>>, <<(<<1, 81>>)>>),
+          MkDef(9, 15, <<6>>, <<>>, <<>>, <<>>)>>      \* 9: fills placeholders from the variables of the pipeline it runs in (it has none of its own)      \* 8: no transformations; its post-processing item prints variable k1 and the state of the pipeline it runs in
           \* 7:      \* no transformations, but post-processing and a variable (a second concat finalizer after pipeline 2's would be fed a string)
 NPool == Len(Pool)
 Seqs(n) == {s \in [1..n -> 1..NPool] : \A i, j \in 1..n : i # j => s[i] # s[j]}
@@ -44,7 +45,11 @@ ReuseCases == {[op |-> o, operands |-> s, tree |-> Leaf(1),
 \* a + b is built, then b is summed with c, then a + b is used: it still is the pipeline with a's parts followed by b's
 ThirdCases == {[op |-> "reuse_then_third", operands |-> s, tree |-> Leaf(1), ref |-> SumSeq([i \in 1..2 |-> Pool[s[i]]])]
                      : s \in {t \in Seqs(3) : t[2] \in {7, 8} \/ t[1] = 8}}
-ASSUME LET S == SetToSeq(DefaultCases \cup ThirdCases \cup SumCases \cup ResolveCases \cup BackendCases \cup SwitchCases \cup ReuseCases)
+\* a + b is built AND USED for a conversion, then a goes into a + c: that converts like a's parts followed by c's
+\* (a: the pipeline that reads variables while it runs - 8 prints one, 9 fills placeholders; b and c give the variable different values)
+AfterUseCases == {[op |-> "reuse_after_use", operands |-> s, tree |-> Leaf(1), ref |-> SumSeq(<<Pool[s[1]], Pool[s[3]]>>)]
+                     : s \in {t \in Seqs(3) : t[1] \in {8, 9}}}
+ASSUME LET S == SetToSeq(AfterUseCases \cup DefaultCases \cup ThirdCases \cup SumCases \cup ResolveCases \cup BackendCases \cup SwitchCases \cup ReuseCases)
        IN  ndJsonSerialize(IOEnv.VERIF_OUT, [i \in 1..Len(S) |-> [id |-> i, pool |-> Pool] @@ S[i]])
 Init == x = 0
 Next == UNCHANGED x
